@@ -220,6 +220,7 @@ def conn_member(desc, tier, seed):
             cn = nxt[0]
             g = g.get_for_apply_selection_choice(cn, b.node[a[str(cn.decision_id)]])
 
+    resolved = []
     for a in adm:
         nodes = specsem.closure(desc, a)
         wit = ['graph-api', sorted(a.items())]
@@ -229,6 +230,7 @@ def conn_member(desc, tier, seed):
         except Exception as e:  # noqa
             ctx.check('C11.scenario-resolves', False, wit, f'{type(e).__name__}: {e}', nt)
             continue
+        resolved.append((a, g, nodes))
         for cc in desc.conn_choices:
             cn = b.conn_choice[cc.cid]
             present = cn in g.graph.nodes
@@ -262,6 +264,26 @@ def conn_member(desc, tier, seed):
             for edges in ref[:3]:
                 ok = cn.validate_conn_edges(g, [(b.node[s], b.node[t]) for s, t in edges])
                 ctx.check('C11.validate-accepts-valid-set', bool(ok), wit + [cc.cid, list(edges)], 'valid set rejected', nt + (cc.cid, edges, 'v'))
+    # the graphs of all scenarios exist side by side now (they share connector and grouping node objects): each one
+    # still offers, and accepts, the sets of its own connectors -- asked in reverse order of creation
+    for a, g, nodes in reversed(resolved):
+        wit = ['graph-api', sorted(a.items()), 'asked-after-all-scenarios-were-derived']
+        nt = (desc.label, tuple(sorted(a.items())), 'later')
+        for cc in desc.conn_choices:
+            cn = b.conn_choice[cc.cid]
+            if cn not in g.graph.nodes or not any(s_ in nodes for s_ in cc.srcs):
+                continue
+            ref = sorted(set(specsem.valid_matrices(desc, cc, nodes)))
+            try:
+                offered = sorted(tuple(sorted((b.name_of.get(s_), b.name_of.get(t_)) for s_, t_ in edges))
+                                 for edges in g.iter_possible_connection_edges(cn))
+                ctx.check('C11.offered-sets-are-the-valid-ones', offered == ref, wit + [cc.cid],
+                          f'offered {offered[:4]} ({len(offered)}), valid {ref[:4]} ({len(ref)})', nt + (cc.cid,))
+                for edges in ref[:3]:
+                    ok = cn.validate_conn_edges(g, [(b.node[s_], b.node[t_]) for s_, t_ in edges])
+                    ctx.check('C11.validate-accepts-valid-set', bool(ok), wit + [cc.cid, list(edges)], 'valid set rejected', nt + (cc.cid, edges, 'v'))
+            except Exception as e:  # noqa
+                ctx.check('C11.offered-sets-are-the-valid-ones', False, wit + [cc.cid], f'{type(e).__name__}: {e}', nt + (cc.cid,))
     # scenarios without any valid connection set never appear among the valid designs; others are never lost
     try:
         from .decode import ref_archs, obs_arch
